@@ -24,6 +24,13 @@ class C12(Prop):
     modelled_not_verified = ("src/subject/behavior_subject.rs, src/behavior.rs: hand transcription "
                              "(Subject/Behavior.lean) validated on the generated histories")
 
+    # translator tie: BehaviorSubject over Subject / SubjectThreads (compiler-expanded source, translated) is the
+    # BState of the model: store first, then broadcast; greeting = the stored value; peek reads the cell
+    tie_modules = {
+        "RxModel.GenTie.Behavior": [],
+        "RxModel.GenTie.BehaviorThreads": [],
+    }
+
     def cases(self, tier, seed):
         rng = random.Random(seed)
         out = []
